@@ -250,6 +250,11 @@ def run_unit(name, overlay=None, probe=False, rlimit=None, seed=None, tag="", ti
         ur.reason = "verus produced no result: " + ("; ".join(d.msg for d in tool_errors[:3]) or p.stderr[-400:])
     if ur.status == "ok" and tool_errors:
         ur.status, ur.reason = "undecided", "unclassified verus error: " + "; ".join(d.msg for d in tool_errors[:3])
+    unspec = getattr(G, "unspecified", {})
+    if ur.status == "ok" and unspec:
+        hit = sorted(set(d.fn for d in ur.diags if d.fn in unspec))
+        if hit:
+            ur.status, ur.reason = "undecided", "generator: " + "; ".join(f"{k}: unsupported construct {unspec[k]}" for k in hit)
     if ur.status == "ok" and any(d.rlimit for d in ur.diags):
         ur.status, ur.reason = "rlimit", "; ".join(f"{d.fn}: {d.msg}" for d in ur.diags if d.rlimit)[:300]
     ur.wall = time.time() - t0
